@@ -153,6 +153,14 @@ impl Number {
             if exp < 0 && self.value == Numeric::zero() {
                 return Err("Division by zero".to_string());
             }
+            // The exponents of the result must stay far inside i64.
+            let limit = i32::MAX as i64;
+            for (_, &power) in self.unit.iter() {
+                match power.checked_mul(exp as i64) {
+                    Some(p) if -limit <= p && p <= limit => {}
+                    _ => return Err("Exponent is too large".to_string()),
+                }
+            }
             Ok(self.powi(exp))
         } else if num == one {
             match den.as_int() {
